@@ -73,6 +73,14 @@ CHECKS = {
   'C13 system with generated clocks (repeated readings, jumps of 1000, int/float/Fraction, offsets up to 2^40); for each sampled base run a terminating fault (Quit, quit_loop(None/current), ordinary exception, BaseException) is raised at activations of the run (quick: 3 sampled; thorough: every activation x 5 kinds), each followed by a restart of the same loop object; exact dt ledger per start (first dt 0, dt == difference of consecutive readings across switches, one process per reading), outcome of start(), running flag, current world/handle identity, on_quit deliveries.',
   'trusted: every world has a first processor making each process() observable; exhaustive only within each sampled base scenario',
   'deterministic simulation with a simulated clock and crash/quit injection at every actor activation; dt ledger'),
+ 'C15': ('worldfile', 'exploration', 'DESIGN.md 3/C15',
+  'generated descriptions are written as real JSON files and loaded by the real WorldFromFileHandle placed at depth 1-4 of a real resource tree whose referenced resources are cached or not; history load / enable / clear / rewrite / load again, plus the dictionary path with dispatching enabled and disabled; constructor arguments are compared element-wise (references by identity), ids incl. 0 and "", processors after the default ones and by priority, load-time callback order through the disabled-dispatcher queue, resource load counts. Mostly seeded input generation: the stated weakness is that there is no fault dimension.',
+  'trusted: recording fixture classes; strings that begin with a marker and continue, duplicate ids and repeated exact types are not generated',
+  'deterministic simulation (weak: seeded descriptions through real file + tree + event queue), differential against an expectation computed from the description'),
+ 'C19': ('twin', 'exploration', 'DESIGN.md 3/C19',
+  'twin worlds: the same history runs on W1 through shorthands only (functions, Controller methods, ComponentReference/ProcessorReference get/set/del, controller() factory) and on W2 through World calls, components created pairwise; return values and a full query sweep compared after every step (refinement against the real World); Prototype source matrix incl. custom prefixes, sub-prototypes and equal __name__ types, iterated twice; OnUpdateProcessor relays the very dt object once per listener.',
+  'trusted: pairing of twin objects; the real World is the reference',
+  'deterministic simulation: twin-world differential run under seeded histories'),
 }
 NA = {
  'C18': 'pure arithmetic on immutable tuples: no state, schedule, clock, I/O or fault for a simulator to decide (DESIGN.md section 3, C18)',
